@@ -86,6 +86,16 @@ theorem getStats_monotone (s : Prof.St) (ops : List Op) (lab : Nat) (es : List (
   rw [getStats_eq, List.mem_map]
   exact ⟨lab, labels_mono (run_grows ops s) lab hl, rfl⟩
 
+/-- **within the source span**: in every state reachable from a fresh profiler, a reported line is a line of an instruction of a
+    registered code object with the bytecode the entry was recorded for (its `co_lines`, NOP padding included) -/
+theorem snapshot_within_span (ops : List Op) (lab : Nat) (e : Int × Nat × Int)
+    (he : e ∈ snapshot (Prof.St.init.run ops) lab) :
+    ∃ c ∈ (Prof.St.init.run ops).chm.map Prod.fst, c.label = lab ∧
+      ∃ c' ∈ (Prof.St.init.run ops).chm.map Prod.fst, c'.blk = c.blk ∧ e.1 ∈ c'.allLines := by
+  obtain ⟨_, c, hc, hl, hr⟩ := snapshot_entry _ lab e he
+  obtain ⟨c', hc', hb, hin⟩ := run_spanned ops Prof.St.init init_spanned _ hr
+  exact ⟨c, hc, hl, c', hc', hb, hin⟩
+
 /-- non-vacuity: the snapshot function on a callback state with a recorded line (the hash-map form `ESt` does not
     reduce in the kernel, so the example is stated on `labelEntries` over the abstract state that `snapshot` reads) -/
 example :
